@@ -430,6 +430,12 @@ class J1939_22:
                                 buf['deadline'] = time.time() + self._minimum_tp_rts_cts_dt_interval
                                 break
 
+                        if buf['state'] == self.SendBufferState.SENDING_RTS_CTS and buf['next_packet_to_send'] >= buf['num_segments']:
+                            # nothing (more) to send for this CTS: wait for the next frame of the
+                            # responder instead of staying due for ever
+                            buf['state'] = self.SendBufferState.WAITING_CTS
+                            buf['deadline'] = time.time() + self.Timeout.T3
+
                         # recalc next wakeup
                         if next_wakeup > buf['deadline']:
                             next_wakeup = buf['deadline']
